@@ -4,6 +4,7 @@ package harness
 
 import (
 	"fmt"
+	"os"
 	"strings"
 	"testing"
 
@@ -121,6 +122,21 @@ func c06Check(c c06Case) *Violation {
 		ast, ok := fromGts(v)
 		if !ok || !ast.wellFormed() {
 			return viol("malformed", "%s of %v is malformed", c.Kind, c.Parts)
+		}
+		// self-check of the harness's reducer simulation (used to attribute known findings): counted, never judged
+		if curStats != nil {
+			built := make([]Loc, len(parts))
+			for i, p := range parts {
+				built[i], _ = fromGts(p)
+			}
+			if sim, _ := reduceSim(Loc{K: c.Kind, Parts: built}); fmt.Sprint(sim) == fmt.Sprint(ast) {
+				curStats.label("sim:agrees")
+			} else {
+				curStats.label("sim:differs")
+				if os.Getenv("VERIF_SIM_DEBUG") != "" {
+					fmt.Fprintf(os.Stderr, "SIMDIFF %s%v: gts %s sim %s\n", c.Kind, c.Parts, ast, sim)
+				}
+			}
 		}
 		wr, gr := residues(want), residues(den(ast))
 		if !sameElems(wr, gr) {
